@@ -1,8 +1,8 @@
 // C14 "huge message" stage: messages of 2^32 bytes and more (size_t beyond the 32-bit range; bit counters beyond 2^35).
 // The messages live in sparse anonymous MAP_NORESERVE mappings of 2^32 + 64 KiB bytes:
-//   mapping 'z': all zero, read-only from the start (every page is the shared zero page);
-//   mapping 'n': bytes [0,4096) = (7 i + 1) mod 256, bytes [2^32-2048, 2^32+2048) = (13 j + 5) mod 256 (j = offset in that
-//                window), everything else zero; written once, then mprotect(PROT_READ).
+//   mappings 'n' and 'z': position-dependent markers (two different sets) in the first page, on either side of every 2^30
+//                boundary up to 2^32 and in the last page, everything else zero (a few dozen touched pages); written once, then
+//                mprotect(PROT_READ). A piece of the message read from the wrong offset therefore changes the result.
 // Built WITHOUT sanitizers at -O2 (the extracted Coq model and an instrumented build are far too slow at 2^29 blocks); the
 // results are judged against independent references: Python hashlib for the digests (checks/C14.py feeds it the same
 // content), and for SipHash the straight-from-the-paper ref_siphash24 below, which the ordinary harness also evaluates on
@@ -37,17 +37,24 @@
 static const std::uint64_t GiB4 = 1ULL << 32;
 static const std::uint64_t MAP_LEN = GiB4 + 65536;
 
-static std::uint8_t* make_map(bool nonzero)
+// position-dependent content: six marker regions (first page; 4096 bytes on either side of 2^30, 2^31, 3*2^30, 2^32; last page of
+// the mapping), byte j of region r = (A[(r + v) % 6] * j + B[r] + 97 v) mod 256 with v = 0 for mapping 'n', 1 for mapping 'z';
+// everything else reads as zero (untouched pages). The same table is in checks/C14.py (huge_content).
+static const unsigned MARK_A[6] = {7, 13, 29, 37, 43, 53};
+static const unsigned MARK_B[6] = {1, 5, 17, 33, 65, 129};
+
+static std::uint8_t* make_map(unsigned v)
 {
-    void* p = mmap(nullptr, MAP_LEN, nonzero ? (PROT_READ | PROT_WRITE) : PROT_READ, MAP_PRIVATE | MAP_ANONYMOUS | MAP_NORESERVE, -1, 0);
+    void* p = mmap(nullptr, MAP_LEN, PROT_READ | PROT_WRITE, MAP_PRIVATE | MAP_ANONYMOUS | MAP_NORESERVE, -1, 0);
     if (p == MAP_FAILED) return nullptr;
     std::uint8_t* m = static_cast<std::uint8_t*>(p);
-    if (nonzero)
-    {
-        for (unsigned i = 0; i < 4096; ++i) m[i] = static_cast<std::uint8_t>(i * 7 + 1);
-        for (unsigned j = 0; j < 4096; ++j) m[GiB4 - 2048 + j] = static_cast<std::uint8_t>(j * 13 + 5);
-        mprotect(p, MAP_LEN, PROT_READ);
-    }
+    const std::uint64_t G = 1ULL << 30;
+    const std::uint64_t lo[6] = {0, G - 4096, 2 * G - 4096, 3 * G - 4096, 4 * G - 4096, MAP_LEN - 4096};
+    const std::uint64_t hi[6] = {4096, G + 4096, 2 * G + 4096, 3 * G + 4096, 4 * G + 4096, MAP_LEN};
+    for (unsigned r = 0; r < 6; ++r)
+        for (std::uint64_t j = 0; j < hi[r] - lo[r]; ++j)
+            m[lo[r] + j] = static_cast<std::uint8_t>(MARK_A[(r + v) % 6] * j + MARK_B[r] + 97 * v);
+    mprotect(p, MAP_LEN, PROT_READ);
     return m;
 }
 
@@ -68,7 +75,7 @@ int main(int argc, char** argv)
     std::ifstream in(argv[1]);
     std::vector<std::string> lines; std::string line;
     while (std::getline(in, line)) if (!line.empty()) lines.push_back(line);
-    std::uint8_t* mz = make_map(false); std::uint8_t* mn = make_map(true);
+    std::uint8_t* mz = make_map(1); std::uint8_t* mn = make_map(0);
     if (!mz || !mn) { std::cout << "MMAP-FAILED (4 GiB of address space needed)" << std::endl; return 3; }
     std::vector<std::string> out(lines.size());
     std::atomic<size_t> next(0);
